@@ -6,7 +6,7 @@ ALL = [f'C{i:02d}' for i in range(1, 20)]
 
 CHECKS = {
  'C06': dict(
-   technique='Coq proof (wall depths form a deltaz-net: Q arithmetic on n_repeat = ceil((h-z_off)/deltaz); chain files hold only moves) + token-level differential of every file of the exported tree + run of the whole tree (FARCALL inlined) on the reference controller + shapely containment of the chains + source translator: TrenchColumn.n_repeat is re-translated from /repo on every run and proved to be the ceiling the depth-net theorems are about (coq/tie/EquivTc.v); the call file written by TrenchWriter._farcall_trench_column is translated as well and proved to be the model\'s farcall_ops of the abstracted column (coq/tie/EquivFc.v: SRC_C06_call_file), so C06_call_file_safe is a theorem about the source\'s call file',
+   technique='Coq proof (wall depths form a deltaz-net: Q arithmetic on n_repeat = ceil((h-z_off)/deltaz); chain files hold only moves) + token-level differential of every file of the exported tree + run of the whole tree (FARCALL inlined) on the reference controller + shapely containment of the chains + source translator: TrenchColumn.n_repeat is re-translated from /repo on every run and proved to be the ceiling the depth-net theorems are about (coq/tie/EquivTc.v); the call file written by TrenchWriter._farcall_trench_column is translated as well and proved to be the model\'s farcall_ops of the abstracted column (coq/tie/EquivFc.v: SRC_C06_call_file), so C06_call_file_safe is a theorem about the source\'s call file; the file tree TrenchWriter.pgm creates and the files its programs load are translated too (names only) and every load is proved to have been written, MAIN calling every column in order (coq/tie/EquivTn.v)',
    text='Props/C06.v: passes of a level are deltaz apart, start at z_off, the last pass of each level is within deltaz of the top of '
         'its box and the next level starts at most deltaz above it, never above the box top - so no depth of the stack is farther '
         'than deltaz from a wall pass; wall / floor / bed files contain only G1 moves. Tie to /repo: real (U-)trench columns dug '
@@ -98,7 +98,7 @@ CHECKS = {
         'float64 promotion of 0-d inputs as tr_scalar.',
    design='5/C02'),
  'C18': dict(
-   technique='Coq proof (stable sort is a sorted permutation; table shape; cell = attribute; column-omission iff; preamble rule) + cell-level differential reading the .xlsx back',
+   technique='Coq proof (stable sort is a sorted permutation; table shape; cell = attribute; column-omission iff; preamble rule) + cell-level differential reading the .xlsx back + source translator: Spreadsheet._get_structure_list is re-translated from /repo on every run and proved to be the model\'s structure_list (coq/tie/EquivSs.v)',
    text='Props/C18.v: the modelled table has one row per structure - the waveguides as a sorted permutation first, then the markers '
         'in order - one cell per kept column, each cell showing the attribute (blank when absent); a column is omitted iff it is '
         'not the name and is undefined for all rows or constant with suppression on; omitted constants go to the preamble, kept '
